@@ -204,6 +204,8 @@ struct Owed {
     n: usize, // reason codes the normal answer carries
     due: u64,
     answered: bool,
+    /// wire offset just past the packet that created this debt: the broker cannot answer before it has those bytes
+    end_off: usize,
 }
 
 /// What the reference broker knows about the current session / connection
@@ -224,6 +226,7 @@ struct Broker {
     srv_alias_bound: Vec<u16>,
     tam_in: i64,
     all_legal: bool,
+    connect_flushed: bool,
 }
 
 pub struct Sim<'a> {
@@ -235,6 +238,8 @@ pub struct Sim<'a> {
     wire: Vec<u8>,
     wire_parsed: usize,
     call_marks: Vec<(usize, u64)>, // (wire length after the service call, time of the call)
+    tx_end: usize,
+    sock_upto: usize,              // wire bytes the (faithful) driver has handed to the socket so far
     b: Broker,
     ops: BTreeMap<u64, OpInfo>,
     next_key: u64,
@@ -360,7 +365,7 @@ impl<'a> Sim<'a> {
         let auto = AutoBroker { rm: cfg.b_rm, ka: cfg.b_ka, tam: cfg.b_tam, mqos: cfg.b_mqos, ret: cfg.b_ret };
         Sim {
             auto,
-            cfg, engine, tr, t: 0, buf: Vec::with_capacity(cap), wire: Vec::new(), wire_parsed: 0, call_marks: Vec::new(),
+            cfg, engine, tr, t: 0, buf: Vec::with_capacity(cap), wire: Vec::new(), wire_parsed: 0, call_marks: Vec::new(), tx_end: 0, sock_upto: 0,
             b: Broker { next_srv_pid: 1, tam_in, all_legal: true, ..Default::default() },
             ops: BTreeMap::new(), next_key: 1, dead: false, rng: StdRng::seed_from_u64(seed), v5,
             panics: 0, steps_skipped: 0, pump_limit_hits: 0,
@@ -421,6 +426,7 @@ impl<'a> Sim<'a> {
             let t1 = self.time_of_offset(base + end - 1);
             let decoded = rc::decode(first, &body, self.v5);
             self.wire_parsed = base + end;
+            self.tx_end = base + end;
             self.on_tx(first, decoded, t0, t1, end - start, false);
         }
     }
@@ -498,7 +504,8 @@ impl<'a> Sim<'a> {
 
     fn broker_on_tx(&mut self, p: &Packet, t: u64) {
         let due = t + self.cfg.ack_delay;
-        let mut owe = |kind: u8, pid: u16, n: usize, b: &mut Broker| b.owed.push(Owed { kind, pid, n, due, answered: false });
+        let end_off = self.tx_end;
+        let owe = |kind: u8, pid: u16, n: usize, b: &mut Broker| b.owed.push(Owed { kind, pid, n, due, answered: false, end_off });
         match p.ptype {
             rc::CONNECT => { self.b.connect_seen = true; self.b.connect_clean = p.flag("clean_start"); owe(rc::CONNACK, 0, 0, &mut self.b); }
             rc::PUBLISH => { match p.u("qos").unwrap_or(0) { 1 => owe(rc::PUBACK, p.pid(), 0, &mut self.b), 2 => owe(rc::PUBREC, p.pid(), 0, &mut self.b), _ => {} } }
@@ -542,6 +549,8 @@ impl<'a> Sim<'a> {
         let t = self.t;
         let Some(r) = self.guarded("write_completion", |e| e.write_completion(t)) else { return false; };
         self.buf.clear();
+        self.sock_upto = self.wire.len();
+        if self.b.connect_seen && r.is_ok() { self.b.connect_flushed = true; }
         let state = self.state();
         self.emit("WriteDone", vec![("result", json!(res_str(&r))), ("state", json!(state))]);
         self.completions("writedone");
@@ -577,6 +586,7 @@ impl<'a> Sim<'a> {
 
     fn feed(&mut self, p: Option<&Packet>, bytes: &[u8], legal: bool, type_name: &str) -> bool {
         if !legal { self.b.all_legal = false; }
+        if std::env::var("VERIF_DEBUG_SNAP").is_ok() { eprintln!("t={} before {}: {:?}", self.t, type_name, self.engine.snapshot()); }
         let t = self.t;
         // deliver in 1..3 chunks so that framing across reads is exercised in every run
         let nchunks = if bytes.len() >= 2 { self.rng.gen_range(1..=3usize.min(bytes.len())) } else { 1 };
@@ -626,6 +636,15 @@ impl<'a> Sim<'a> {
         let state_before = self.state();
         let q = match qos { 0 => QualityOfService::AtMostOnce, 1 => QualityOfService::AtLeastOnce, _ => QualityOfService::ExactlyOnce };
         let entries = entries.max(1);
+        // deviations only make sense for some kinds; anything else is an ordinary operation
+        let variant = match (kind, variant) {
+            ("pub", "props" | "bigprop" | "emptytopic" | "wildtopic") => variant,
+            ("sub", "wild" | "shared" | "subid" | "badfilter" | "nolocalshared") => variant,
+            ("unsub", "wild" | "badfilter") => variant,
+            _ => "",
+        };
+        // these deviations live in the second and later entries
+        let entries = if matches!(variant, "wild" | "shared" | "badfilter" | "nolocalshared") { entries.max(2) } else { entries };
         let (hash, len);
         use gneiss_mqtt::verif::validate::{outbound, UserPacket};
         let verdict;
@@ -706,7 +725,7 @@ impl<'a> Sim<'a> {
         let t = self.t;
         let Some(r) = self.guarded("connection_opened", |e| e.connection_opened(t, t + deadline)) else { return; };
         if r.is_ok() {
-            self.b.conn += 1; self.b.open = true; self.b.connect_seen = false; self.b.connack_sent = false; self.b.owed.clear();
+            self.b.conn += 1; self.b.open = true; self.b.connect_seen = false; self.b.connect_flushed = false; self.b.connack_sent = false; self.b.owed.clear(); self.sock_upto = 0; self.tx_end = 0;
             self.b.srv_alias_bound.clear(); self.buf.clear(); self.wire.clear(); self.wire_parsed = 0; self.call_marks.clear();
         }
         let (conn, state) = (self.b.conn, self.state());
@@ -771,7 +790,7 @@ impl<'a> Sim<'a> {
         if !self.b.open { self.steps_skipped += 1; return; }
         let sp = p.flag("session_present");
         let ok = p.u("reason_code") == Some(0);
-        let legal = self.b.connect_seen && !self.b.connack_sent && (!sp || (!self.b.connect_clean && self.b.has_session)) && (!sp || ok);
+        let legal = self.b.connect_seen && self.b.connect_flushed && !self.b.connack_sent && (!sp || (!self.b.connect_clean && self.b.has_session)) && (!sp || ok);
         if self.b.connect_seen && !self.b.connack_sent {
             if let Some(o) = self.b.owed.iter_mut().find(|o| o.kind == rc::CONNACK && !o.answered) { o.answered = true; }
         }
@@ -860,7 +879,8 @@ impl<'a> Sim<'a> {
     fn deliver_due(&mut self) -> bool {
         // automatic conforming broker: answer the oldest owed entry that is due
         let t = self.t;
-        let Some(idx) = self.b.owed.iter().position(|o| !o.answered && o.due <= t) else { return false; };
+        let sock = self.sock_upto;
+        let Some(idx) = self.b.owed.iter().position(|o| !o.answered && o.due <= t && o.end_off <= sock) else { return false; };
         let o = self.b.owed[idx].clone();
         match o.kind {
             rc::CONNACK => {
@@ -894,7 +914,8 @@ impl<'a> Sim<'a> {
             let mut enabled: Vec<u8> = Vec::new();
             if !self.buf.is_empty() { enabled.push(0); }
             if matches!(ns, Some(x) if x <= self.t) { enabled.push(1); }
-            if self.b.owed.iter().any(|o| !o.answered && o.due <= self.t) { enabled.push(2); }
+            let sock = self.sock_upto;
+            if self.b.owed.iter().any(|o| !o.answered && o.due <= self.t && o.end_off <= sock) { enabled.push(2); }
             if enabled.is_empty() {
                 let mut next = until;
                 if let Some(x) = ns { next = next.min(x); }
@@ -910,7 +931,12 @@ impl<'a> Sim<'a> {
             }
             let pick = enabled[self.rng.gen_range(0..enabled.len())];
             let ok = match pick {
-                0 => self.do_write_done(),
+                0 => {
+                    // the transport accepts all that is left, or only part of it
+                    let unwritten = self.wire.len() - self.sock_upto;
+                    if unwritten > 1 && self.rng.gen_bool(0.3) { self.sock_upto += self.rng.gen_range(1..unwritten); true }
+                    else { self.do_write_done() }
+                }
                 1 => { let cap = self.cfg.cap; self.do_service(cap) }
                 _ => { self.deliver_due(); self.state() != "Halted" }
             };
@@ -969,7 +995,10 @@ impl<'a> Sim<'a> {
                 let tn = if name.is_empty() { "RAW".to_string() } else { name.clone() };
                 self.feed(decoded.as_ref(), &bytes, *legal, &tn);
             }
-            Step::Advance { ms } => { self.t += *ms; }
+            Step::Advance { ms } => {
+                // a faithful driver never lets time pass on a live connection without servicing at the reported times
+                if self.cfg.faithful && self.b.open { let until = self.t + *ms; self.pump(until, false); self.t = self.t.max(until); } else { self.t += *ms; }
+            }
             Step::TickToNext { plus } => { if let Some(x) = self.next_svc() { let target = (x as i64 + *plus).max(self.t as i64) as u64; self.t = target; } }
             Step::NextSvc {} => { self.next_svc(); }
             Step::Run { ms } => { let until = self.t + *ms; self.pump(until, false); }
